@@ -323,7 +323,11 @@ def declared_gate(m, ff, appends, p):
         if isinstance(t, ast.Call) and isinstance(t.func, ast.Name) and t.func.id == 'isinstance' \
                 and isinstance(root_of_expr(t.args[0]), Param) and root_of_expr(t.args[0]).name == p:
             return True
-        return any(undeclared(c) for c in normalise_fact(f))
+        if any(undeclared(c) for c in normalise_fact(f)):
+            return True
+        # a test that reads nothing but this parameter and constants (e.g. the message variant chosen by a helper's
+        # constant argument) does not make the refusal depend on anything else
+        return all(n.name == p for n in deep_walk(t) if isinstance(n, Param))
     for call, stmt, before in appends:
         if gate_with(before, declared, 'ValueError'):
             continue
